@@ -108,7 +108,19 @@ def inprocess(case, res, count=True):
     for n in g2.nodes:
         if n.compromised_by:
             return ('determinism:node-shared-by-two-graphs', 'a node of the second graph is compromised after attach_attackers on the first')
-    # a fresh generation after analysing another graph is still the same
+    dA = canon(g1._to_dict())
+    # attackers are registered by hand on the other graph, in the call forms that leave arguments to their defaults
+    if g2.nodes:
+        from maltoolbox.attackgraph import Attacker
+        try:
+            g2.add_attacker(Attacker(name='by hand 1', entry_points=[], reached_attack_steps=[]), entry_points=[g2.nodes[0].id])
+            g2.add_attacker(Attacker(name='by hand 2', entry_points=[], reached_attack_steps=[]), reached_attack_steps=[g2.nodes[-1].id])
+            g2.add_attacker(Attacker(name='by hand 3', entry_points=[], reached_attack_steps=[]))
+        except Exception as exc:
+            return ('analysis:raised-%s' % type(exc).__name__, 'add_attacker raised %r' % (exc,))
+        if count:
+            res.count('class:attackers-registered-by-hand-on-another-graph')
+    # a fresh generation after analysing another graph is still the same, bare and with attackers and analysis
     try:
         g3 = built.attack_graph()
     except TooExpensive:
@@ -116,6 +128,13 @@ def inprocess(case, res, count=True):
         return None
     if canon(g3._to_dict()) != d2:
         return ('determinism:generation-after-analysis-differs', 'a graph generated after analysing another one differs')
+    try:
+        g3.attach_attackers()
+        calculate_viability_and_necessity(g3)
+    except Exception as exc:
+        return ('analysis:raised-%s' % type(exc).__name__, 'attach/analysis of a later graph raised %r' % (exc,))
+    if canon(g3._to_dict()) != dA:
+        return ('determinism:same-process-differs', 'generate + attach_attackers + analysis gives another serialised graph the second time in one process')
     return None
 
 
